@@ -6,6 +6,8 @@ Streams
             (through `Interpreter.execute` on a preset stack) and short comb programs  vs  the Lean mirror (`Impl.Comb`).
             Oracles on the real code: (a) the annotation-blind Michelson reference (Python re-statement, below) wherever
             it is defined; (b) metamorphic — the same operation on the same value built from the annotation-free type.
+            GET 0 / UPDATE 0 are exercised on pairs and on non-pairs (atoms, options, ors, lists, maps), annotated and not, in every
+            element/value combination; the reference there is: GET 0 = identity on any type, UPDATE 0 = the new element, any types.
   programs  well-typed-by-construction programs (harness/gen_c17.py) run three times through `Interpreter().execute`:
             as generated, randomly re-annotated, all annotations stripped.  Failure-or-not, final stack (optimized
             Micheline + type structure) and PACK bytes of every packable item must coincide.  No model needed.
@@ -245,6 +247,41 @@ def minimal_witness(real, key):
     return None
 
 
+def zkind(tr, ty):
+    """histogram key: is the operand a pair, does its type carry an annotation anywhere"""
+    return ('pair' if tr[0] == 'p' else 'non-pair') + ('/annotated' if type_sites(ty, []) else '/plain')
+
+
+def minimal_zero_witness(real, key):
+    """smallest input on which GET 0 / UPDATE 0 differs from the reference rule (GET 0 :: a : S -> a : S on any a;
+    UPDATE 0 :: a : b : S -> a : S on any a, b).  Returns (what, replay) or None."""
+    nat = lambda k: real.value({'prim': 'nat'}, {'int': str(k)})
+    pair = lambda: real.value({'prim': 'pair', 'args': [{'prim': 'nat'}, {'prim': 'nat'}]},
+                              {'prim': 'Pair', 'args': [{'int': '1'}, {'int': '2'}]})
+    show = lambda r: 'fails' if r is None else 'stack ' + ' : '.join(json.dumps(ref_layout(strip(x))) for x in r)
+    if key == 'GET n':
+        for mk, push, want in ((lambda: [nat(5)], 'PUSH nat 5', [nat(5)]), (lambda: [pair()], 'PUSH (pair nat nat) (Pair 1 2)', [pair()])):
+            got = real.on_stack(mk(), 'GET 0')
+            wt = [tree_of(x) for x in want]
+            if got is None or [strip(x) for x in got] != [strip(x) for x in wt]:
+                return (f'{push} ; GET 0 -> {show(got)} (reference: GET 0 is the identity on any type -> {show(wt)})',
+                        {'program': f'{push} ; GET 0', 'got': show(got), 'want': show(wt)})
+        return None
+    if key == 'UPDATE n':
+        for mk, push in ((lambda: [nat(7), nat(6)], 'PUSH nat 6 ; PUSH nat 7'),
+                         (lambda: [nat(7), pair()], 'PUSH (pair nat nat) (Pair 1 2) ; PUSH nat 7'),
+                         (lambda: [pair(), nat(6)], 'PUSH nat 6 ; PUSH (pair nat nat) (Pair 1 2)'),
+                         (lambda: [pair(), pair()], 'PUSH (pair nat nat) (Pair 1 2) ; PUSH (pair nat nat) (Pair 1 2)')):
+            st = mk()
+            wt = [tree_of(st[0])]
+            got = real.on_stack(st, 'UPDATE 0')
+            if got is None or [strip(x) for x in got] != [strip(x) for x in wt]:
+                return (f'{push} ; UPDATE 0 -> {show(got)} (reference: UPDATE 0 replaces the whole value, any types -> {show(wt)})',
+                        {'program': f'{push} ; UPDATE 0', 'got': show(got), 'want': show(wt)})
+        return None
+    return None
+
+
 def guarded(f):
     try:
         return f()
@@ -317,9 +354,11 @@ def run(ctx):
     ctx.extra['rule'] = (
         'helpers: random right combs (2..6 leaves, nested pairs / option / or / list / map leaves) whose type carries random %field / :type '
         'annotations (also empty names) on every node, with GET/UPDATE/UNPAIR/PAIR n for n in and out of range and short comb programs; '
+        'every round also takes a non-pair value (atom / option / or / list / map, annotated or not): GET 0 on it, UPDATE 0 of any element onto it '
+        'and of it onto the comb (reference: identity / whole-value replacement on any types), GET n / UPDATE n with n >= 1 on it (must fail); '
         'programs: typed generation over PUSH/PAIR/UNPAIR/PAIR n/UNPAIR n/GET n/UPDATE n/CAR/CDR/DUP/DUP n/SWAP/DIG/DUG/DROP/PACK/UNPACK/SOME/'
-        'IF_NONE/LEFT/RIGHT/IF_LEFT/CONS/NIL/IF_CONS/LAMBDA+EXEC/map GET+UPDATE, each run as generated, re-annotated and stripped; '
-        'non-trivial = some pair type node inside a comb carries an annotation (helpers) / the program has >= 3 instructions and uses a comb instruction or PACK (programs)')
+        'IF_NONE/LEFT/RIGHT/IF_LEFT/CONS/NIL/IF_CONS/LAMBDA+EXEC/map GET+UPDATE (GET 0 on any top, UPDATE 0 on any two items), each run as generated, re-annotated and stripped; '
+        'non-trivial = some pair type node inside a comb carries an annotation, for the non-pair operands: some type node does (helpers) / the program has >= 3 instructions and uses a comb instruction or PACK (programs)')
     ctx.assumptions += [
         'values outside pair/option/or/list (maps, sets, lambdas, tickets, scalars) are opaque leaves of the comb model, given by their optimized Micheline',
         'Spec.Comb (GET n / UPDATE n / UNPAIR n / PAIR n, Octez unparse_pair in Optimized mode) is my transcription of the Michelson reference',
@@ -354,10 +393,11 @@ def run(ctx):
         ctx.count('comb_leaves', m)
         ctx.count('annotated_inner_pair', inner_annot)
 
-        def check(op, key, got_trees, got0_trees, want, nontrivial=True):
-            """got: real result on the annotated value; got0: on the stripped type; want: reference (None = undefined)"""
-            d = dict(desc, op=op)
-            ctx.case(d, nontrivial=inner_annot and nontrivial)
+        def check(op, key, got_trees, got0_trees, want, nontrivial=True, on=None, nt=None):
+            """got: real result on the annotated value; got0: on the stripped type; want: reference (None = undefined);
+            on / nt: description and non-triviality of the operand when it is not the comb `v` of this round"""
+            d = dict(desc if on is None else on, op=op)
+            ctx.case(d, nontrivial=(inner_annot if nt is None else nt) and nontrivial)
             ctx.count('op', op.split(' ')[0])
             g = None if got_trees is None else [strip(x) for x in got_trees]
             g0 = None if got0_trees is None else [strip(x) for x in got0_trees]
@@ -372,6 +412,11 @@ def run(ctx):
                 ctx.violation(f'annotation-dependent:{key}', f'{op} on {d["value"]} : {d["type"]} -> {"fails" if g is None else "ok"}, '
                               f'but on the unannotated type -> {"fails" if g0 is None else "ok"}{"" if (g is None) != (g0 is None) else " with a different result"}',
                               {'op': op, 'type': d['type'], 'value': d['value'], 'annotated': repr(g)[:400], 'unannotated': repr(g0)[:400]})
+            elif want is not None and g != want and key in ('GET n', 'UPDATE n') and op.split(' ')[1] == '0' \
+                    and (key, 0) not in witnessed and minimal_zero_witness(real, key) is not None:
+                witnessed.add((key, 0))
+                w0 = minimal_zero_witness(real, key)
+                ctx.violation(f'differs-from-reference:{key}', w0[0], w0[1])
             elif want is not None and g != want:
                 ctx.violation(f'differs-from-reference:{key}', f'{op} on {d["value"]} : {d["type"]} -> {repr(g)[:200]}, Michelson reference {repr(want)[:200]}',
                               {'op': op, 'type': d['type'], 'value': d['value'], 'got': repr(g)[:400], 'want': repr(want)[:400]})
@@ -387,11 +432,13 @@ def run(ctx):
             got, got0 = real.on_stack([v], f'GET {n}'), real.on_stack([v0], f'GET {n}')
             add(f'get {n} {vt}', 'err' if got is None else line_vals(got), dict(desc, op=f'GET {n}'))
             w = ref_getn(n, sv)
+            if n == 0:
+                ctx.count('zero_index', f'GET 0 on {zkind(tr, ty)} value')
             check(f'GET {n}', 'GET n', got, got0, None if w is None else [w])
         # UPDATE n
-        for n in sorted(set([1, 2, rng.randrange(0, 2 * m + 2), rng.randrange(0, 2 * m + 2)])):
+        for n in sorted(set([0, 1, 2, rng.randrange(0, 2 * m + 2), rng.randrange(0, 2 * m + 2)])):
             esh = G.rand_shape(rng, rng.choice([0, 1, 2]), 0.7)
-            ety = G.annotate(rng, esh, 0.5)
+            ety = G.annotate(rng, esh, rng.choice([0.0, 0.5, 0.5, 1.0]))
             eval_ = G.rand_value(rng, esh)
             e, e0 = real.value(ety, eval_), real.value(G.strip_type(ety), eval_)
             et = tree_of(e)
@@ -399,9 +446,40 @@ def run(ctx):
             add(f'upd {n} {" ".join(tokens(et))} {vt}', 'err' if got is None else line_vals(got),
                 dict(desc, op=f'UPDATE {n}', elem=G.fmt_value(eval_, True), elem_type=G.fmt_type(ety, True)))
             w = ref_updaten(n, strip(et), sv)
-            if n == 0 and et[0] != 'p':
-                w = None     # pytezos rejects UPDATE 0 with a non-pair element (not an annotation matter; outside C17)
+            if n == 0:
+                ctx.count('zero_index', f'UPDATE 0 {zkind(et, ety)} elem onto {zkind(tr, ty)} value')
             check(f'UPDATE {n} [elem {G.fmt_value(eval_, True)} : {G.fmt_type(ety, True)}]', 'UPDATE n', got, got0, None if w is None else [w])
+        # GET 0 / UPDATE 0 on a value that is NOT a pair (reference: GET 0 is the identity on any type, UPDATE 0 replaces the whole
+        # value whatever the two types are), and GET n / UPDATE n, n >= 1, on it (ill-typed: the real code and the mirror must both fail)
+        wsh = G.rand_nonpair_shape(rng, rng.choice([0, 1, 2]))
+        wty = G.annotate(rng, wsh, rng.choice([0.0, 0.5, 1.0]))
+        wval = G.rand_value(rng, wsh)
+        w_, w0_ = real.value(wty, wval), real.value(G.strip_type(wty), wval)
+        wtr = tree_of(w_)
+        swv = strip(wtr)
+        wt = ' '.join(tokens(wtr))
+        wdesc = {'type': G.fmt_type(wty, True), 'value': G.fmt_value(wval, True)}
+        w_annot = bool(type_sites(wty, []))
+        for n in (0, rng.choice([1, 2, 3])):
+            got, got0 = real.on_stack([w_], f'GET {n}'), real.on_stack([w0_], f'GET {n}')
+            add(f'get {n} {wt}', 'err' if got is None else line_vals(got), dict(wdesc, op=f'GET {n}'))
+            r = ref_getn(n, swv)
+            if n == 0:
+                ctx.count('zero_index', f'GET 0 on {zkind(wtr, wty)} value')
+            check(f'GET {n}', 'GET n', got, got0, None if r is None else [r], on=wdesc, nt=w_annot)
+        for n, (x, x0, xtr, xty, xval), (y, y0, ytr, yty, yval) in (
+                (0, (e, e0, et, ety, eval_), (w_, w0_, wtr, wty, wval)),        # any element onto a non-pair
+                (0, (w_, w0_, wtr, wty, wval), (v, v0, tr, ty, val)),           # a non-pair element onto the comb
+                (rng.choice([1, 2, 3]), (e, e0, et, ety, eval_), (w_, w0_, wtr, wty, wval))):
+            got, got0 = real.on_stack([x, y], f'UPDATE {n}'), real.on_stack([x0, y0], f'UPDATE {n}')
+            ydesc = {'type': G.fmt_type(yty, True), 'value': G.fmt_value(yval, True)}
+            add(f'upd {n} {" ".join(tokens(xtr))} {" ".join(tokens(ytr))}', 'err' if got is None else line_vals(got),
+                dict(ydesc, op=f'UPDATE {n}', elem=G.fmt_value(xval, True), elem_type=G.fmt_type(xty, True)))
+            r = ref_updaten(n, strip(xtr), strip(ytr))
+            if n == 0:
+                ctx.count('zero_index', f'UPDATE 0 {zkind(xtr, xty)} elem onto {zkind(ytr, yty)} value')
+            check(f'UPDATE {n} [elem {G.fmt_value(xval, True)} : {G.fmt_type(xty, True)}]', 'UPDATE n', got, got0, None if r is None else [r],
+                  on=ydesc, nt=bool(type_sites(xty, []) or type_sites(yty, [])))
         # UNPAIR n
         for n in sorted(set([2, m, rng.randrange(0, m + 3)])):
             got, got0 = real.on_stack([v], f'UNPAIR {n}'), real.on_stack([v0], f'UNPAIR {n}')
